@@ -245,7 +245,7 @@ func streamRecord(out io.Writer, args []string) error {
 			ev.Seed, ev.Idx = *seed, idx
 			if rng.Float64() < pComb {
 				a, b := rng.Intn(nacc), rng.Intn(nacc)
-				if a == b {
+				if a == b && rng.Intn(3) != 0 { // now and then an accumulator is combined with itself: both parts are the same stream
 					b = (a + 1) % nacc
 				}
 				if acc[a].Count+acc[b].Count > 1<<30 {
